@@ -28,9 +28,14 @@ def work(args):
         for sid in seeds:
             d = os.path.join(VERIF, "seeded", sid)
             xdg = tempfile.mkdtemp(prefix="seedxdg-", dir="/dev/shm")
-            for x in ("d", "c", "k"):
-                os.makedirs(f"{xdg}/{x}")
-            env = dict(os.environ, PYTHONPATH=wt, XDG_DATA_HOME=xdg + "/d", XDG_CONFIG_HOME=xdg + "/c", XDG_CACHE_HOME=xdg + "/k", PYTHONDONTWRITEBYTECODE="1")
+
+            def fresh_env():
+                # own empty XDG dirs for every step (a demo that writes a legacy database must not leak into the test run)
+                sub = tempfile.mkdtemp(prefix="s-", dir=xdg)
+                for x in ("d", "c", "k"):
+                    os.makedirs(f"{sub}/{x}")
+                return dict(os.environ, PYTHONPATH=wt, XDG_DATA_HOME=sub + "/d", XDG_CONFIG_HOME=sub + "/c", XDG_CACHE_HOME=sub + "/k", PYTHONDONTWRITEBYTECODE="1")
+
             demo = open(os.path.join(d, "demo.py")).read()
             # demos assert that they import from their original scratch worktree: point them at this one
             import re
@@ -39,15 +44,15 @@ def work(args):
             dp = os.path.join(wt, "_demo.py")
             open(dp, "w").write(demo)
             r = {"head": head}
-            r["demo_unpatched_rc"] = sh(f"/venv/bin/python -B {dp}", cwd=wt, env=env)[0]
+            r["demo_unpatched_rc"] = sh(f"/venv/bin/python -B {dp}", cwd=wt, env=fresh_env())[0]
             rc, o = sh(f"git apply {d}/patch.diff", cwd=wt)
             if rc:
                 r["error"] = "patch does not apply: " + o[:200]
             else:
-                rc, o = sh("/venv/bin/python -B -m pytest -q -p no:cacheprovider --timeout=900 tests 2>&1 | tail -3", cwd=wt, env=env)
+                rc, o = sh("/venv/bin/python -B -m pytest -q -p no:cacheprovider --timeout=900 tests 2>&1 | tail -3", cwd=wt, env=fresh_env())
                 r["tests_with_patch"] = o.strip().splitlines()[-1] if o.strip() else ""
                 r["tests_pass"] = " passed" in o and "failed" not in o and "error" not in o.lower()
-                rc, o = sh(f"/venv/bin/python -B {dp}", cwd=wt, env=env)
+                rc, o = sh(f"/venv/bin/python -B {dp}", cwd=wt, env=fresh_env())
                 r["demo_patched_rc"] = rc
                 r["demo_patched_tail"] = o.strip().splitlines()[-1][:300] if o.strip() else ""
             sh("git checkout -- . && git clean -fdq", cwd=wt)
